@@ -334,6 +334,7 @@ func TestC20(t *testing.T) {
 	ev.RapidChecks(n)
 	ev.RapidSeed(20)
 	var redraw int64
+	var earlyPrim []Prim
 	rapid.Check(t, func(rt *rapid.T) {
 		// construction: three vertices, then ensure area >= 0.01 by resampling the third (counted)
 		var p Prim
@@ -398,6 +399,9 @@ func TestC20(t *testing.T) {
 		}
 		ev.Eval(1)
 		ev.NT(ev.Hash("tri", p))
+		if len(earlyPrim) < 400 {
+			earlyPrim = append(earlyPrim, p)
+		}
 		k, w, cond := checkPrim(p)
 		ev.Class(condClass(cond), 1)
 		if k != "" {
@@ -405,6 +409,14 @@ func TestC20(t *testing.T) {
 		}
 	})
 	ev.Set("triangle_redraws", redraw)
+	// the first 400 triangles once more after all the others (see C12)
+	for _, p := range earlyPrim {
+		ev.Eval(1)
+		if k, w, _ := checkPrim(p); k != "" {
+			ev.Violation("primaries", k, "asked again after many other calls: "+w, p)
+			break
+		}
+	}
 
 	ev.RapidSeed(21)
 	var detRedraw int64
